@@ -514,8 +514,9 @@ class Interp:
 
     def ev_List(self, node, fr):
         items = [self.ev(e, fr) for e in node.elts]
-        if fr.spec and all(self.is_intlike(x) for x in items):
-            return VSeq(seq_of_terms([self.as_int(x) for x in items]), 'list')   # spec lists are int sequences
+        if (fr.spec or items) and all(self.is_intlike(x) for x in items):
+            # lists of ints are integer sequences (mutable); the empty literal in executable code stays a generic list
+            return VSeq(seq_of_terms([self.as_int(x) for x in items]), 'list')
         return VList(items)
 
     def ev_Dict(self, node, fr):
@@ -1425,11 +1426,19 @@ class Interp:
         c = self.current_contract
         if c is not None and c.stmt_hints and fr.func is self.current_target:
             text = None
-            for htext, uses in c.stmt_hints:
+            text_loop = None
+            for htext, uses, checks in c.stmt_hints:
                 if text is None:
                     text = ast.unparse(st)
-                if text == htext:
+                    if isinstance(st, (ast.While, ast.For)):
+                        k_, _spec = self.loop_annotation(fr, st)
+                        text_loop = '@loop%d' % k_
+                if text == htext or (text_loop is not None and text_loop == htext):
                     self.apply_uses(uses, fr)
+                    # intermediate assertions (cut points) proved at this program point, just before the statement
+                    sf = self.spec_frame(fr)
+                    for i, chk in enumerate(checks):
+                        self.prove(self.truth(self.ev(chk, sf)), 'assert', 'at(%s).check.%d' % (htext[:30], i), st.lineno)
         m = getattr(self, 'st_' + type(st).__name__, None)
         if m is None:
             raise OutOfSubset('statement %s' % type(st).__name__)
